@@ -67,6 +67,8 @@ uint16_t LogContainer::internalHeaderSize() const {
 void LogContainer::uncompress() {
     switch (compressionMethod) {
     case 0: /* no compression */
+        if (uncompressedFileSize != compressedFile.size())
+            throw Exception("LogContainer::uncompress(): unexpected uncompressedSize");
         uncompressedFile = compressedFile;
         break;
 
